@@ -120,6 +120,29 @@ func (c *DNSPacketConn) recvLoop(transport net.Conn) error {
 	}
 }
 
+// encodeName encodes p as the labels of a query name under c.domain (steps 1-3
+// of send). It returns an error if the resulting name does not fit the DNS
+// limits on label and name length.
+func (c *DNSPacketConn) encodeName(p []byte) (dns.Name, error) {
+	encoded := make([]byte, base32Encoding.EncodedLen(len(p)))
+	base32Encoding.Encode(encoded, p)
+	encoded = bytes.ToLower(encoded)
+	labels := chunks(encoded, 63)
+	labels = append(labels, c.domain...)
+	return dns.NewName(labels)
+}
+
+// WriteTo queues p to be sent as a single query. A packet that cannot be
+// carried in a query name is reported to the caller here; sendLoop could only
+// log the error and drop it, leaving the caller waiting for a response to a
+// query that was never sent.
+func (c *DNSPacketConn) WriteTo(p []byte, addr net.Addr) (int, error) {
+	if _, err := c.encodeName(p); err != nil {
+		return 0, err
+	}
+	return c.QueuePacketConn.WriteTo(p, addr)
+}
+
 // chunks breaks p into non-empty subslices of at most n bytes, greedily so that
 // only final subslice has length < n.
 func chunks(p []byte, n int) [][]byte {
@@ -147,12 +170,7 @@ func chunks(p []byte, n int) [][]byte {
 //  3. Append the domain.
 //     ingesrkokreujy6zumkse43vobsxey3bnruwm4tbm5uwy2ltoruwgzlyobuwc3d.jmrxwg2lpovzq.t.example.com
 func (c *DNSPacketConn) send(transport net.Conn, p []byte) error {
-	encoded := make([]byte, base32Encoding.EncodedLen(len(p)))
-	base32Encoding.Encode(encoded, p)
-	encoded = bytes.ToLower(encoded)
-	labels := chunks(encoded, 63)
-	labels = append(labels, c.domain...)
-	name, err := dns.NewName(labels)
+	name, err := c.encodeName(p)
 	if err != nil {
 		return err
 	}
